@@ -296,8 +296,9 @@ P = {
        "internal.EnsureNoSymlinks transcribed call by call), both extractor loops and the six exported wrappers over it; this "
        "is what the driver executes against the real code on whole trees, including a destination that is itself a link. "
        "Proved: with the guard every call acts at its lexical path (resolving_is_lexical), hence containment of nodes, "
-       "contents and hard links on the link-following file system for every archive and every real tree whose destination "
-       "is not below a link (extract_contained_resolving, extract_contained_inodes_resolving); the same loops WITHOUT the "
+       "contents and hard links on the link-following file system for every archive and every real tree in which no proper "
+       "ancestor of the destination is a file or a link (missing ancestors are allowed, MkdirAll creates them) and the "
+       "destination itself is not a link (extract_contained_resolving, extract_contained_inodes_resolving); the same loops WITHOUT the "
        "guard calls escape (guardless_escapes, concrete archives); exact reproduction of well-formed archives into an empty or "
        "missing destination (tar and zip); for any pre-existing tree an error-free run is exactly the overlay of the archive "
        "on the old tree (extract_overlay: skipped type flags contribute nothing, ./ entries, existing files rewritten with "
@@ -306,14 +307,16 @@ P = {
        "(reextract_identity, reextract_link_fails); error propagation for truncated, corrupt, unwritable and unopenable "
        "entries.",
   note="privileged process: permission bits never make a call fail in the model or in the correspondence run; for an ordinary "
-       "user extract_reproduces' 'no error' needs owner write and search permission after masking on every directory that "
-       "later receives a child. A PRE-EXISTING hard link inside the destination to an outside file is the one case the "
-       "extractors cannot see: a regular entry on it replaces the outside file's content, mode and everything else stay "
-       "(existing_file_rule; Appendix B). Not modelled: NAME_MAX/PATH_MAX/NUL, destination /, races, the archive/tar and "
-       "archive/zip readers (the model sees the entries they yield); a linked destination and missing ancestors of the "
-       "destination are covered by the differential run only (area dstlinkm; lexical theorems for the ancestors); zip root "
-       "test fi.IsDir() vs kind = dir differs only for a symlink-bit entry named ./ (error without effect on both sides); "
-       "umask set to 0 by the harness.",
+       "user 'no error' needs owner write and search permission after masking on every directory that later receives a child. A "
+       "PRE-EXISTING hard link inside the destination to an outside file: a regular entry on it replaces the outside file's "
+       "content, mode and everything else stay (existing_file_rule; Appendix B). A destination that is ITSELF a symbolic link "
+       "(chains of 40 links are followed, 41 give ELOOP, as the kernel) and a destination below a LINKED ANCESTOR (the real code "
+       "and the resolving model extract into the physical place): differential run only, area dstlinkm, no theorem (containment "
+       "relative to the physical root is not proved). A missing parent of the destination is inside the theorems and is run. Not "
+       "modelled: NAME_MAX/PATH_MAX/NUL; node types other than directory, regular file and symbolic link (a pre-existing fifo, "
+       "socket or device at an entry path: open on a fifo without a reader would hang); a destination /; races; the archive/tar "
+       "and archive/zip readers (the model sees the entries they yield). The zip root test fi.IsDir() versus kind = dir differs "
+       "only for a symlink-bit entry named ./ (an error in both; not generated); umask set to 0 by the harness.",
   ref="DESIGN.md section 5 C19, section 0"),
  "C03": dict(
   text="145 Lean theorems. Props/C03.lean (60) about the executable model Model/Fixed.lean + Model/FixedFloat.lean of f64.Int/"
